@@ -42,7 +42,7 @@ def units(tier):
     # a letter and a blank (both quote kinds mixed, quotes inside the other kind of literal, doubled)
     for n in ((3, 4, 5, 6, 7) if q else (3, 4, 5, 6, 7, 8)):
         for form in ("free", "fixed"):
-            us.append(dict(h="k_inline", n=n, form=form, cost=n))
+            us.append(dict(h="k_inline", n=n, form=form, cost=0))      # cost 0: explored first
     return us
 
 
